@@ -246,6 +246,38 @@ def check_history(version, part):
         w.close()
 
 
+def check_primitives(part):
+    """Primitive encodings byte-identical to the independent implementation: the boundary menus of
+    C01 (sign and width boundaries incl. magnitudes whose bit length is a multiple of 64, every
+    length mod 8, non-ASCII text, every member of six enumerations) under three tags x 6 versions."""
+    from kmip.core import primitives
+    for name, cls, v, typ in c01.primitive_cases():
+        for tag in (T.DEFAULT, T.ACTIVATION_DATE, T.CUSTOM_ATTRIBUTE):
+            try:
+                if name.startswith('Enumeration'):
+                    obj, ev = primitives.Enumeration(cls, v, tag), v.value
+                else:
+                    obj, ev = cls(v, tag), v
+            except (TypeError, ValueError):
+                continue
+            exp = ttlv.encode((tag.value, typ, ev))
+            for kv in c01.KV:
+                try:
+                    b = c01.shapes.encode(obj, kv)
+                except Exception:   # noqa - C01's subject (constructs but cannot be encoded)
+                    continue
+                part.count('encodings')
+                part.count('primitive_encodings')
+                if b != exp and not (typ == ttlv.BIG_INTEGER and c01._same_bigint(b, exp)):
+                    vk = c01._vclass(v) if not name.startswith('Enumeration') else 'member'
+                    part.violation("primitive|%s|%s" % (name.split(':')[0], vk),
+                                   "%s(%r) under tag %s: the library emits %s, the TTLV definition gives %s"
+                                   % (name, v, tag.name, b.hex(), exp.hex()),
+                                   {'primitive': name, 'value': repr(v)[:60]})
+                    break
+    part.sample({'primitive_cases': len(c01.primitive_cases())})
+
+
 def check_grid(arg, versions, part):
     """The C13 request grid (every operation x object kind x state x parameter deviations, ~35k
     well-formed requests in the quick tier) re-driven with the envelope oracle: error paths of
@@ -320,6 +352,8 @@ def _worker(task):
             part.sample({'classes': arg[:5]})
         elif kind == 'grid':
             check_grid(arg[0], arg[1], part)
+        elif kind == 'primitives':
+            check_primitives(part)
         else:
             check_history(arg, part)
     finally:
@@ -334,6 +368,7 @@ def run(tier, seed):
     names = c01.structure_names()
     n = 20
     tasks = [('classes', names[i::n]) for i in range(n)] + [('history', v) for v in W.VERSIONS]
+    tasks.append(('primitives', None))
     from checks import c13_no_general_failure as c13
     targets, kek = c13.grid(tier)
     vq = [(1, 0), (1, 2), (1, 4), (2, 0)]
@@ -357,7 +392,8 @@ def run(tier, seed):
              "universe (presence lattice + single-field sweeps per class x 6 versions), (ii) each "
              "response of a real session+engine to a ~85-request history per version covering every "
              "operation, every error class, request-level rejections, undecodable frames, "
-             "certificate/identity failures and oversize replacement, (iii) each response to the C13 "
+             "certificate/identity failures and oversize replacement, (i') every primitive of C01's "
+             "boundary menus under three tags, byte-compared with the independent encoder, (iii) each response to the C13 "
              "request grid (operation x object kind x state x parameter deviations; grid_responses). "
              "distinct_nontrivial = distinct "
              "(class or history label, verdict) pairs",
@@ -378,6 +414,8 @@ def replay(doc):
     try:
         if 'class' in doc:
             check_class_bytes(doc['class'], part)
+        elif 'primitive' in doc:
+            check_primitives(part)
         elif 'grid' in doc:
             g = doc['grid']
             arg = (g[0], tuple(g[1]))
